@@ -1,5 +1,5 @@
 """Per-property texts for MANIFEST.json."""
-HOOK_COMMITS = []
+HOOK_COMMITS = ["7c2f925"]
 NOT_APPLICABLE = {}
 META = {}
 
@@ -96,4 +96,12 @@ META["C05"] = dict(
     design_ref="DESIGN.md §2 C05",
     note="Trusts datastore/transport/network doubles; 'authenticated sender' is the peer argument the network layer passes (C15 checks that it is the connection's remote peer).",
     technique="runtime monitoring: per-message differential oracle on stored records, event streams and transport calls of all pre-existing channels",
+)
+
+META["C16"] = dict(
+    text=("Held on K generated callback sequences against the real transport: the harness-owned request-id -> channel map is the oracle for every EventsHandler call; "
+          "structural invariants (no route/tracking/store after cleanup) are read through the verif hook snapshot."),
+    design_ref="DESIGN.md §2 C16",
+    note="Trusts the graphsync double (FakeGS) and the recording EventsHandler; callbacks are fired sequentially here, concurrently in the C20 stress.",
+    technique="runtime monitoring: expected-multiset oracle per fired callback over the recorded EventsHandler log + hook-based structural invariants",
 )
